@@ -59,6 +59,9 @@ checks = {
  "C19": dict(level="exploration", engine="pure", technique="exhaustive enumeration of key sequences (all length-1 and length-2 over 262 runes, length-3 over 28 special runes, all default binds) through Escape/EscapeMacro/Unescape",
    text="Unescape(Escape(s)) == s and Unescape(EscapeMacro(s)) == s for every enumerated sequence and every key sequence of every default keymap.",
    note="Printable Unicode beyond U+00FF represented by six runes; dump round trip through the real dump commands is part (c), see DESIGN.md.", ref="7 C19"),
+ "C20": dict(level="model_checking", engine="sched", technique="stateless model checking of the implementation: exhaustive preemption-bounded (iterative context bounding) enumeration of thread schedules and disturbance delivery points under a cooperative scheduler compiled into the library through a generated source overlay",
+   text="For 6 key scripts (plain edit, completion menu cycling, vi pending-key command, numeric-argument hint, two-line buffer, wrapped line) x 4 disturbance budgets (1 SIGWINCH with a width change, 1 concurrent Shell.Printf, 2 SIGWINCH, SIGWINCH + Printf), ALL schedules of the real Readline loop, the real resize watcher goroutine and the real Printf with at most P deviations (quick P=1, thorough P=2; a disturbance delivery or a switch away from a runnable thread costs 1; free choices when the running thread blocks are always explored) are executed. Every sync.Mutex/RWMutex operation, channel send/receive/select/close, go statement, signal.Notify, terminal write and terminal read of the library is a scheduling point. Oracle per schedule: no panic, no deadlock, no thread left parked after return, (line, err) equal to the undisturbed run, and the C04 screen oracle at the last wait when every disturbance had completed before it.",
+   note="Accesses between two scheduling points are atomic in this model (word tearing / memory-model effects are out of scope); the emulated terminal answers cursor queries at once. Violations whose schedule contains an overlap of two unsynchronised activities (main loop work x resize redisplay x Printf) are the recorded known findings (root cause: the library has no mutual exclusion there); any violation without overlap, or with a new symptom, is reported.", ref="7 C20"),
 }
 na = {
 }
@@ -72,13 +75,14 @@ def build():
      "setup_cmd": "./setup.sh",
      "hooks": {
        "guard": "verif",
-       "enable": "go build -tags verif (module /verif with `replace github.com/reeflective/readline => /repo`); the only hook is /repo/verif_hooks.go (VerifSetStdin); the schedule engine additionally uses a generated -overlay, never committed",
+       "enable": "go build -tags verif (module /verif with `replace github.com/reeflective/readline => /repo`); the only hook is /repo/verif_hooks.go (VerifSetStdin); the schedule engine (C20) additionally builds with tags `verif verifsched` through a generated -overlay (build_b.sh: cmd/instrument rewrites copies of the repository files under /verif/.scratch/overlay and adds the virtual packages internal/verifrt, internal/vsync, internal/verifvt and verif_sched_bridge.go); nothing of it is committed to /repo",
        "baseline_off_cmd": "cd /repo && GOFLAGS=-mod=mod GOPROXY=off go test -vet=off -count=1 ./...",
        "source_commits": subprocess.run(["git","-C","/repo","log","--format=%h","--grep=^verif:"],capture_output=True,text=True).stdout.split(),
        "add_only": True,
      },
      "engines": [
        {"name":"pure","path":"checks","serves_properties":sorted(k for k in checks if checks[k].get("engine")=="pure"),"kind_free_text":"in-process exhaustive enumerators calling the real parser / escaper / file history, with reference models in Go"},
+       {"name":"sched","path":"rt, cmd/instrument, checks/c20.go","serves_properties":sorted(k for k in checks if checks[k].get("engine")=="sched"),"kind_free_text":"schedule explorer: cmd/instrument rewrites the library's synchronisation, channel, goroutine, signal and terminal I/O operations into calls of a cooperative scheduler (rt/verifrt, rt/vsync) supplied through go build -overlay (build_b.sh -> bin/vcheck-b); the check enumerates schedules by replaying decision prefixes (iterative preemption bounding)"},
        {"name":"session","path":"internal/harness","serves_properties":sorted(k for k in checks if checks[k].get("engine","session")=="session"),"kind_free_text":"real library over a harness-owned pty; gated key reader; VT emulator answers cursor queries; explicit-state BFS / bounded products / deviation enumeration over executions"},
      ],
      "checks": [],
